@@ -538,3 +538,23 @@ m('M36c', 'C14', 'C14.retire-or-rearm', 'generator_aggregator.h',
         } else {""", 'finished source not counted out')
 m('M36d', 'C14', 'C14.callback-enqueues-once', 'generator_aggregator.h',
   "        _gen.next(std::forward<Args>(args)...).subscribe(this);", "        (void)_gen.next(std::forward<Args>(args)...);", 'charge does not subscribe')
+m('M44', 'C19', 'C19.trailer', 'coro_storage.h',
+  "            p = ::operator new(sz+sizeof(reusable_storage_mtsafe **));", "            p = ::operator new(sz);", 'no room for the owner pointer')
+m('M45', 'C19', 'C19.pairing', 'alloca_storage.h',
+  "        if (*flag) ::operator delete(ptr);", "        (void)flag;", 'stack_storage never frees its heap fallback')
+m('M45b', 'C19', 'C19.reuse', 'coro_storage.h',
+  "        if (sz > _capacity) {", "        if (sz >= _capacity) {", 'equal sizes re-allocate')
+m('M45c', 'C19', 'C19.pairing', 'coro_storage.h',
+  """        T *x = reinterpret_cast<T *>(static_cast<std::uint8_t *>(ptr)+sz);
+        x->~T();""", """        T *x = reinterpret_cast<T *>(static_cast<std::uint8_t *>(ptr)+sz);
+        (void)x;""", 'extra object never destroyed')
+m('M45d', 'C19', 'C19.routing', 'with_allocator.h',
+  """    void operator delete(void *ptr, std::size_t sz) {
+        Allocator::dealloc(ptr, sz);""", """    void operator delete(void *ptr, std::size_t sz) {
+        Allocator::dealloc(ptr, sz-1);""", 'delete passes another size')
+m('M45e', 'C19', 'C19.concept', 'with_allocator.h',
+  """private:
+    void *operator new(std::size_t); //incorrectly use of with_allocator""", """public:
+    void *operator new(std::size_t sz) {return ::operator new(sz);} //incorrectly use of with_allocator""", 'plain operator new made public')
+m('M45f', 'C19', 'C19.trailer', 'coro_storage.h',
+  "        auto s = reinterpret_cast<reusable_storage_mtsafe **>(reinterpret_cast<char *>(ptr) + sz);\n        auto me = *s;", "        auto s = reinterpret_cast<reusable_storage_mtsafe **>(reinterpret_cast<char *>(ptr) + sz - sizeof(void *));\n        auto me = *s;", 'dealloc reads the owner at another offset')
